@@ -7,6 +7,7 @@ pub type Placement = spec_fn(Square) -> Option<Kind>;
 
 pub open spec fn sq_ok(s: Square) -> bool { s.rank < 8 && s.file < 8 }
 pub open spec fn sq_idx(s: Square) -> int { s.rank as int * 8 + s.file as int }
+pub open spec fn sq(rank: int, file: int) -> Square { Square { rank: rank as u8, file: file as u8 } }
 pub open spec fn sq_of(i: int) -> Square { Square { rank: (i / 8) as u8, file: (i % 8) as u8 } }
 
 pub open spec fn upd(m: Placement, k: Square, v: Option<Kind>) -> Placement {
